@@ -17,12 +17,12 @@ echo "tests-with-change: $T"
 (cd /repo && /venv/bin/python "$DEMO" >/dev/null 2>&1); echo "demo-clean-exit: $?"
 mkdir -p "$OUT"
 for C in "$@"; do
-  R=$(cd /verif && VERIF_REPO="$WT" VERIF_OUT="$OUT" ./check "$C" --tier quick 2>&1 | grep -v condarc)
-  if echo "$R" | grep -q '^VIOLATION'; then
-    NW=$(echo "$R" | grep 'kind=' | grep -vc 'kind=regression-of-fixed')
-    echo "check $C: CAUGHT (workload violations: $NW) $(echo "$R" | grep 'kind=' | grep -v 'kind=regression-of-fixed' | head -1 | cut -c1-200)$(echo "$R" | grep 'kind=regression-of-fixed' | head -1 | cut -c1-60)"
-  elif echo "$R" | grep -q '^INCONCLUSIVE'; then
-    echo "check $C: inconclusive $(echo "$R" | grep '^INCONCLUSIVE' | head -1 | cut -c1-200)"
+  R=$(cd /verif && VERIF_REPO="$WT" VERIF_OUT="$OUT" ./check "$C" --tier quick 2>&1 | grep -a -av condarc)
+  if echo "$R" | grep -a -aq '^VIOLATION'; then
+    NW=$(echo "$R" | grep -a 'kind=' | grep -a -vc 'kind=regression-of-fixed')
+    echo "check $C: CAUGHT (workload violations: $NW) $(echo "$R" | grep -a 'kind=' | grep -a -v 'kind=regression-of-fixed' | head -1 | cut -c1-200)$(echo "$R" | grep -a 'kind=regression-of-fixed' | head -1 | cut -c1-60)"
+  elif echo "$R" | grep -a -aq '^INCONCLUSIVE'; then
+    echo "check $C: inconclusive $(echo "$R" | grep -a '^INCONCLUSIVE' | head -1 | cut -c1-200)"
   else
     echo "check $C: missed"
   fi
